@@ -51,6 +51,21 @@ def parseRequest (tok : String) : Option Request :=
 def parseRequests (s : String) : Option (List Request) :=
   if s = "-" then some [] else (s.splitOn "/").mapM parseRequest
 
+def parsePeerE (tok : String) : Option Peer :=
+  match tok.splitOn ":" with
+  | [h, p, r] => do
+    let h ← h.toNat?; let p ← p.toNat?; let r ← parseRoles r
+    pure { host := h, port := p, roles := r }
+  | _ => none
+
+def parsePeersE (s : String) : Option (List Peer) :=
+  if s = "." then some [] else (s.splitOn ";").mapM parsePeerE
+
+/-- indices (into `peers`) of the model's survivors; `filter` keeps order, endpoints may repeat so the
+    indices are recovered positionally -/
+def survivorIdx (peers : List Peer) (tg : Peer) : List Nat :=
+  (peers.zipIdx.filter (fun (p, _) => (survivingPeersExcept [p] tg).length == 1)).map (·.2)
+
 def nodupNat : List Nat → Bool
   | [] => true
   | x :: xs => !xs.contains x && nodupNat xs
@@ -124,6 +139,23 @@ def model (line : String) : String :=
       let (st, grains) := reassignByRole r s l
       s!"sh={showAS st.shares} lead={showA st.leader} gr={showG grains} fail={showA st.failed}"
     | _, _, _ => "bad-case"
+  | ["sp", ps, t] =>
+    match parsePeersE ps, t.toNat? with
+    | some ps, some t =>
+      match ps[t]? with
+      | some tg => if (survivingPeersExcept ps tg).length = (survivorIdx ps tg).length then showIds (survivorIdx ps tg) else "model-inconsistent"
+      | none => "bad-case"
+    | _, _ => "bad-case"
+  | ["rx", l, ps, t, r] =>
+    match parseRoles l, parsePeersE ps, t.toNat?, parseRequests r with
+    | some l, some ps, some t, some r =>
+      match ps[t]? with
+      | some tg =>
+        let surv := survivingPeersExcept ps tg
+        let (st, grains) := reassignByRole r (surv.map (·.roles)) l
+        s!"sv={showIds (survivorIdx ps tg)} sh={showAS st.shares} lead={showA st.leader} gr={showG grains} fail={showA st.failed}"
+      | none => "bad-case"
+    | _, _, _, _ => "bad-case"
   | ["ll", s, lens, role] =>
     match parsePeers s, commaNats? lens, role.toNat? with
     | some s, some lens, some role =>
@@ -239,6 +271,33 @@ def judge (line : String) : String :=
     | some l, some s, some r =>
       if !nodupNat (ids (requestActors r)) || !nodupNat (gids (requestGrains r)) then "ok" else judgeRR l s r o
     | _, _, _ => "ok"
+  | ["sp", ps, t] =>
+    match parsePeersE ps, t.toNat?, parseIdList o with
+    | some ps, some t, some sv =>
+      if t ≥ ps.length then "ok"
+      else if sv = specSurvivors ps t then "ok"
+      else "bad survivors are not exactly the peers whose host:port differs from the unreachable target's"
+    | _, _, _ => if o = "bad-case" then "ok" else "bad unparsable output: " ++ o
+  | ["rx", l, ps, t, r] =>
+    match parseRoles l, parsePeersE ps, t.toNat?, parseRequests r with
+    | some l, some ps, some t, some r =>
+      if t ≥ ps.length || !nodupNat (ids (requestActors r)) || !nodupNat (gids (requestGrains r)) then "ok" else
+      let ws := words o
+      let actors := requestActors r
+      let grains := requestGrains r
+      match field ws "sv", field ws "sh", field ws "lead", field ws "gr", field ws "fail" with
+      | some sv, some sh, some lead, some gr, some fl =>
+        match parseIdList sv, parseShares sh, parseIdList lead, parseIdList gr, parseIdList fl with
+        | some sv, some sh, some lead, some gr, some fl =>
+          match sh.mapM (resolveA actors), resolveA actors lead, resolveG grains gr, resolveA actors fl with
+          | some sh, some lead, some gr, some fl =>
+            match rxCheck r ps t l sv { shares := sh, lead := lead, grains := gr, failed := fl } with
+            | some why => "bad " ++ why
+            | none => "ok"
+          | _, _, _, _ => "bad output names an item that is not in the unsent requests"
+        | _, _, _, _, _ => "bad unparsable output: " ++ o
+      | _, _, _, _, _ => "bad unparsable output: " ++ o
+    | _, _, _, _ => "ok"
   | ["ll", s, lens, role] =>
     match parsePeers s, commaNats? lens, role.toNat?, o.toInt? with
     | some s, some lens, some role, some idx =>
